@@ -30,7 +30,7 @@ def run_shard(ctx, prop):
     passes_changed = {}
     counter = [0]
 
-    @ctx.settings(ctx.n(6400, 160000))
+    @ctx.settings(ctx.n(6400, 64000))
     @given(_tree.soup_case(max_lex))
     def t(case):
         if _tree.exhausted():
